@@ -1,15 +1,297 @@
-import DryocVerif.Bytes
-namespace DryocVerif.Properties.C14
-open DryocVerif
+import DryocVerif.Model.Protected
+import DryocVerif.Proofs.Protected
+/-
+C14 — protected memory: page coverage of the protection calls, the state invariant of the
+whole model (permissions, lock flags, guard pages, disjointness) along arbitrary token
+histories, and restoration of every page once all handles are dropped.
 
-/-- page rounding used by the allocator: `size + (P - size % P)` is a multiple of `P` strictly above `size` -/
-theorem pageRound_spec (size P : Nat) (hP : 0 < P) :
-    (size + (P - size % P)) % P = 0 ∧ size < size + (P - size % P) ∧ size + (P - size % P) ≤ size + P := by
-  have h := Nat.mod_lt size hP
-  refine ⟨?_, by omega, by omega⟩
-  have e : size + (P - size % P) = P * (size / P) + P := by
-    have := Nat.div_add_mod size P
-    omega
-  rw [e, Nat.mul_add_mod_self_left, Nat.mod_self]
+Everything is for a symbolic page size `c.P > 0` (the only hypothesis besides the ones named
+in the statements).  Helper lemmas live in `DryocVerif/Proofs/Protected*.lean`.
+
+`Inv c s` (definition in `Proofs/ProtectedInv.lean`, unpacked by `inv_region`, `inv_plain`,
+`inv_disjoint`, `inv_unowned` below) says, for the kernel `s.m.k` and the live slots of `s`:
+  * blocks lie inside `[startPage, brk)`, pages `≥ brk` are untouched (`rw`, unlocked);
+  * per live region: `len ≤ cap = buf.length`; fore guard page and the page at
+    `ptr + pageRound cap` are `none`; every data page has the permission of the region's
+    state (`rw` for Plain, `PM.perm pm` for Protected) and is locked iff the state is Locked;
+    the remaining pages of the allocation are `rw`, unlocked;
+  * blocks of distinct live regions are disjoint;
+  * every page outside all live blocks is `rw`.
+`Tight c s` adds: every page outside all live blocks is unlocked.  `Tight` is preserved by every
+token EXCEPT `lock` on a non-empty `NoAccess` region (`LocksNoAccess`): there `mlock(2)` fails on
+the `PROT_NONE` pages but leaves them marked locked, the error path drops the region with
+`lm = Unlocked`, and nobody unlocks them (observed on the real harness: sample line 1,
+answer `err` with `lck=4` up to `end lck=4`).  See `lock_noaccess_leaks`.
+-/
+namespace DryocVerif.Properties.C14
+open DryocVerif DryocVerif.Model.Protected DryocVerif.Proofs.Protected
+
+/-! ### (a) the pages a protection call covers -/
+
+/-- For every `len > 0` the call `mprotect ptr len` changes exactly the pages
+`ptr/P … (ptr+len-1)/P`, i.e. the pages that hold data bytes (stated for every `ptr`; the
+allocator only produces page-aligned ones), and nothing else in the kernel. -/
+theorem pages_covered {P : Nat} (hP : 0 < P) (k : Kernel) (ptr len : Nat) (p : Perm)
+    (hlen : 0 < len) (i : Nat) :
+    (mprotect P k ptr len p).perm i =
+        (if ptr / P ≤ i ∧ i ≤ (ptr + len - 1) / P then p else k.perm i) ∧
+    (mprotect P k ptr len p).locked = k.locked ∧ (mprotect P k ptr len p).brk = k.brk := by
+  refine ⟨?_, mprotect_locked _ _ _ _ _, mprotect_brk _ _ _ _ _⟩
+  have h := touched_iff hP ptr len hlen i
+  unfold touched at h
+  unfold mprotect
+  have h0 : len ≠ 0 := by omega
+  simp only [h0, if_false, setRange_apply]
+  by_cases hc : ptr / P ≤ i ∧ i < pageEnd P ptr len
+  · rw [if_pos hc, if_pos (h.mp ⟨h0, hc⟩)]
+  · rw [if_neg hc, if_neg (fun hh => hc (h.mpr hh).2)]
+
+/-- for a page-aligned region the covered pages are the `⌈len/P⌉` pages from `ptr/P` on -/
+theorem pages_covered_aligned {P : Nat} (hP : 0 < P) (k : Kernel) (a len : Nat) (p : Perm) (i : Nat) :
+    (mprotect P k (a * P) len p).perm i = if a ≤ i ∧ i < a + pagesOf P len then p else k.perm i :=
+  mprotect_perm hP k a len p i
+
+/-- Counter-model (the repaired defect): the call with `len - 1` on a page-aligned region
+misses the page of the last byte whenever `len % P = 1`. -/
+theorem lenMinus1_misses_last {P : Nat} (hP : 0 < P) (k : Kernel) (ptr len : Nat) (p : Perm)
+    (hal : ptr % P = 0) (hm : len % P = 1) :
+    (mprotectLenMinus1 P k ptr len p).perm ((ptr + len - 1) / P) = k.perm ((ptr + len - 1) / P) := by
+  unfold mprotectLenMinus1 mprotect
+  split
+  · rfl
+  · simp only [setRange_apply, lenMinus1_pageEnd hP ptr len hal hm]
+    rw [if_neg (by omega)]
+
+/-- … and for `len = 1` it covers nothing at all. -/
+theorem lenMinus1_len1_noop (P : Nat) (k : Kernel) (ptr : Nat) (p : Perm) :
+    mprotectLenMinus1 P k ptr 1 p = k := rfl
+
+/-- whereas the repaired call does cover that page -/
+theorem len_covers_last {P : Nat} (hP : 0 < P) (k : Kernel) (ptr len : Nat) (p : Perm) (hlen : 0 < len) :
+    (mprotect P k ptr len p).perm ((ptr + len - 1) / P) = p := by
+  rw [(pages_covered hP k ptr len p hlen _).1, if_pos]
+  exact ⟨Nat.div_le_div_right (by omega), Nat.le_refl _⟩
+
+/-! ### (b) the invariant along arbitrary histories -/
+
+theorem inv_init (c : Cfg) (oracle : Nat → Bool) : Inv c (State.init oracle) :=
+  Proofs.Protected.inv_init c oracle
+
+/-- every token preserves the invariant — whatever the lock oracle answers, `panic` and `err`
+outcomes included -/
+theorem inv_step (c : Cfg) (hP : 0 < c.P) (s : State) (t : Tok) (h : Inv c s) : Inv c (step c s t).2 :=
+  Proofs.Protected.inv_step hP h t
+
+theorem inv_reachable (c : Cfg) (hP : 0 < c.P) (oracle : Nat → Bool) (toks : List Tok) :
+    Inv c (runState c (State.init oracle) toks) :=
+  inv_runState hP toks (inv_init c oracle)
+
+/-- … and so does every intermediate state the harness prints -/
+theorem inv_reachable_all (c : Cfg) (hP : 0 < c.P) (oracle : Nat → Bool) (toks : List Tok) :
+    ∀ r ∈ run c (State.init oracle) toks, Inv c r.2 :=
+  inv_run hP toks (inv_init c oracle)
+
+/-- What `Inv` says about a live, non-empty `Protected` region in state `(lm, pm)`, in byte
+addresses: every page holding data has exactly the permission of `pm` and is locked iff
+`lm = Locked`; the page before the data and the page at `ptr + pageRound cap` are `none`. -/
+theorem inv_region (c : Cfg) (hP : 0 < c.P) (s : State) (h : Inv c s) (i : Nat) (sl : Slot)
+    (hi : s.slots[i]? = some sl) (hg : sl.gone = false) (lm : LM) (pm : PM)
+    (hst : sl.o.st = .prot lm pm) (hlen : 0 < sl.o.v.len) :
+    (∀ p, ptr c sl.o.v / c.P ≤ p → p ≤ (ptr c sl.o.v + sl.o.v.len - 1) / c.P →
+        s.m.k.perm p = pm.perm ∧ (s.m.k.locked p = true ↔ lm = .locked)) ∧
+    s.m.k.perm ((ptr c sl.o.v - 1) / c.P) = .none ∧
+    s.m.k.perm ((ptr c sl.o.v + pageRound c.P sl.o.v.cap) / c.P) = .none ∧
+    sl.o.v.len ≤ sl.o.v.cap := by
+  have hb := inv_block h hi hg
+  have hc : 0 < sl.o.v.cap := by have := hb.lenle; simp only [blkOf] at this; omega
+  refine ⟨?_, ?_, ?_, hb.lenle⟩
+  · intro p h1 h2
+    rw [ptr_div hP] at h1
+    have h3 := ptr_last_div hP sl.o.v hlen
+    have := hb.data p h1 (by simp only [blkOf]; omega)
+    simp only [blkOf, hst, stPerm] at this
+    refine ⟨this.1, ?_⟩
+    rw [this.2]
+    cases lm <;> simp [stLocked]
+  · rw [ptr_pred_div hP]; exact (hb.fore hc).1
+  · rw [ptr_aft_div hP]; exact (hb.aft hc).1
+
+/-- the same for a bare container: its data pages are `rw` and unlocked, guards `none` -/
+theorem inv_plain (c : Cfg) (hP : 0 < c.P) (s : State) (h : Inv c s) (i : Nat) (sl : Slot)
+    (hi : s.slots[i]? = some sl) (hg : sl.gone = false) (hst : sl.o.st = .plain) (hlen : 0 < sl.o.v.len) :
+    (∀ p, ptr c sl.o.v / c.P ≤ p → p ≤ (ptr c sl.o.v + sl.o.v.len - 1) / c.P →
+        s.m.k.perm p = .rw ∧ s.m.k.locked p = false) ∧
+    s.m.k.perm ((ptr c sl.o.v - 1) / c.P) = .none ∧
+    s.m.k.perm ((ptr c sl.o.v + pageRound c.P sl.o.v.cap) / c.P) = .none := by
+  have hb := inv_block h hi hg
+  have hc : 0 < sl.o.v.cap := by have := hb.lenle; simp only [blkOf] at this; omega
+  refine ⟨?_, ?_, ?_⟩
+  · intro p h1 h2
+    rw [ptr_div hP] at h1
+    have h3 := ptr_last_div hP sl.o.v hlen
+    have := hb.data p h1 (by simp only [blkOf]; omega)
+    simpa [blkOf, hst, stPerm, stLocked] using this
+  · rw [ptr_pred_div hP]; exact (hb.fore hc).1
+  · rw [ptr_aft_div hP]; exact (hb.aft hc).1
+
+/-- allocations (guard pages included) of distinct live regions share no page -/
+theorem inv_disjoint (c : Cfg) (s : State) (h : Inv c s) (i j : Nat) (a b : Slot)
+    (hi : s.slots[i]? = some a) (hj : s.slots[j]? = some b) (hij : i ≠ j)
+    (ha : a.gone = false) (hb : b.gone = false) (p : Nat) :
+    ¬ (inBlock c.P a.o.v p ∧ inBlock c.P b.o.v p) :=
+  Proofs.Protected.inv_disjoint h hi hj hij ha hb p
+
+/-- pages that belong to no live region have their original rights -/
+theorem inv_unowned (c : Cfg) (s : State) (h : Inv c s) (p : Nat)
+    (hp : ∀ (i : Nat) (sl : Slot), s.slots[i]? = some sl → sl.gone = false → ¬ inBlock c.P sl.o.v p) :
+    s.m.k.perm p = .rw := by
+  apply h.outside p
+  intro b hb
+  obtain ⟨sl, hsl, rfl⟩ := List.mem_map.mp hb
+  have hm := List.mem_filter.mp hsl
+  obtain ⟨i, hi⟩ := List.getElem?_of_mem hm.1
+  exact hp i sl hi (by simpa using hm.2)
+
+/-- the type-state transitions never change any container: address, capacity, length and contents
+of every slot are what they were (for `ok` and for `err` alike) -/
+theorem transition_keeps_content (c : Cfg) (s : State) (t : Tok)
+    (ht : t.op = .lock ∨ t.op = .unlock ∨ t.op = .ro ∨ t.op = .rw ∨ t.op = .na) :
+    (step c s t).2.slots.map (fun sl => sl.o.v) = s.slots.map (fun sl => sl.o.v) := by
+  have key : ∀ (i : Nat) (f : Slot → Res × State),
+      (∀ sl l1 l2, s.slots = l1 ++ sl :: l2 → l1.length = i →
+        (f sl).2.slots.map (fun sl => sl.o.v) = s.slots.map (fun sl => sl.o.v)) →
+      (withLive (resetRel s) i .na f).2.slots.map (fun sl => sl.o.v) = s.slots.map (fun sl => sl.o.v) := by
+    intro i f hf
+    apply withLive_elim (Q := fun r => r.2.slots.map (fun sl => sl.o.v) = s.slots.map (fun sl => sl.o.v))
+    · rfl
+    · rfl
+    · intro sl l1 l2 hs hi _; exact hf sl l1 l2 hs hi
+  have hset : ∀ (sl sl' : Slot) (l1 l2 : List Slot) (m : Mach), s.slots = l1 ++ sl :: l2 →
+      sl'.o.v = sl.o.v →
+      (setSlot (resetRel s) m l1.length sl').slots.map (fun sl => sl.o.v) =
+        s.slots.map (fun sl => sl.o.v) := by
+    intro sl sl' l1 l2 m hs hv
+    simp only [setSlot, resetRel, hs, set_split, List.map_append, List.map_cons, hv]
+  unfold step stepCore
+  rcases ht with h | h | h | h | h <;> simp only [h]
+  · unfold opLock
+    apply key; intro sl l1 l2 hs hi; rw [← hi]
+    have hd : ∀ pm, (doLock c (resetRel s) l1.length sl pm).2.slots.map (fun sl => sl.o.v) =
+        s.slots.map (fun sl => sl.o.v) := by
+      intro pm; unfold doLock; simp only []; split <;> exact hset _ _ _ _ _ hs rfl
+    split
+    · exact hd _
+    · exact hd _
+    · rfl
+  · unfold opUnlock
+    apply key; intro sl l1 l2 hs hi; rw [← hi]
+    split
+    · rfl
+    · exact hset _ _ _ _ _ hs rfl
+  · unfold opProtect
+    apply key; intro sl l1 l2 hs hi; rw [← hi]
+    split
+    · rfl
+    · exact hset _ _ _ _ _ hs rfl
+  · unfold opProtect
+    apply key; intro sl l1 l2 hs hi; rw [← hi]
+    split
+    · rfl
+    · exact hset _ _ _ _ _ hs rfl
+  · unfold opNa
+    apply key; intro sl l1 l2 hs hi; rw [← hi]
+    split
+    · exact hset _ _ _ _ _ hs rfl
+    · rfl
+
+/-! ### (c) dropping all handles restores every page -/
+
+/-- After the teardown of ANY state satisfying the invariant (in particular any reachable one,
+whatever the oracle did) every page has its original rights. -/
+theorem drop_restores_perms (c : Cfg) (hP : 0 < c.P) (s : State) (h : Inv c s) (p : Nat) :
+    (finish c s).m.k.perm p = .rw := by
+  have g : GoodL c.P (dropAllM c { s.m with rel := [] } s.slots).k [] :=
+    good_dropAll hP s.slots (m := { s.m with rel := [] }) h
+  exact g.outside p (fun _ hb => by simp at hb)
+
+/-- … and no page is locked, provided no stray lock existed before (`Tight`). -/
+theorem drop_restores_locks (c : Cfg) (hP : 0 < c.P) (s : State) (h : Inv c s) (ht : Tight c s) (p : Nat) :
+    (finish c s).m.k.locked p = false := by
+  have g : TightL c.P (dropAllM c { s.m with rel := [] } s.slots).k [] :=
+    tight_dropAll hP s.slots (m := { s.m with rel := [] }) h ht
+  exact g p (fun _ hb => by simp at hb)
+
+/-- `Tight` is kept by every token that is not a `lock` of a non-empty `NoAccess` region -/
+theorem tight_step (c : Cfg) (hP : 0 < c.P) (s : State) (t : Tok) (h : Inv c s) (ht : Tight c s)
+    (hno : ¬ LocksNoAccess s t) : Tight c (step c s t).2 :=
+  Proofs.Protected.tight_step hP h ht t hno
+
+/-- `drop_restores`: for every history (any oracle, refusals and panics included) in which no
+`lock` is applied to a non-empty `NoAccess` region, after all handles are dropped no page is locked
+and no page has altered rights; `lockedPages` (the harness' `lck=`) is therefore 0. -/
+theorem drop_restores (c : Cfg) (hP : 0 < c.P) (oracle : Nat → Bool) (toks : List Tok)
+    (hno : NoNALock c (State.init oracle) toks) :
+    let e := finish c (runState c (State.init oracle) toks)
+    (∀ p, e.m.k.perm p = Kernel.init.perm p ∧ e.m.k.locked p = Kernel.init.locked p) ∧
+    lockedPages e.m.k = 0 := by
+  intro e
+  have hi := inv_reachable c hP oracle toks
+  have ht := tight_runState hP toks (inv_init c oracle) (tight_init c oracle) hno
+  have hl := drop_restores_locks c hP _ hi ht
+  refine ⟨fun p => ⟨drop_restores_perms c hP _ hi p, hl p⟩, ?_⟩
+  unfold lockedPages
+  rw [List.countP_eq_zero]
+  intro p _
+  simp [e, hl p]
+
+/-- without that hypothesis the rights are still restored (only the lock flag can leak) -/
+theorem drop_restores_perms_always (c : Cfg) (hP : 0 < c.P) (oracle : Nat → Bool) (toks : List Tok) (p : Nat) :
+    (finish c (runState c (State.init oracle) toks)).m.k.perm p = .rw :=
+  drop_restores_perms c hP _ (inv_reachable c hP oracle toks) p
+
+/-! ### the one leak: `lock` on a non-empty `NoAccess` region -/
+
+def c1 : Cfg := { P := 4096, isArr := false, n := 1, wipe := true }
+
+/-- Tail of sample line 1 (`… unlock na lock`): `mlock(2)` on `PROT_NONE` pages fails but leaves
+them marked locked; `Protected::mlock` returns `Err`, the consumed region is dropped with
+`lm = Unlocked`, so nobody calls `munlock`: after ALL handles are gone one page is still locked
+(the harness shows `lck=4`).  Hence the hypothesis of `drop_restores`. -/
+theorem lock_noaccess_leaks :
+    let toks : List Tok := [⟨.new, 0⟩, ⟨.lock, 0⟩, ⟨.unlock, 0⟩, ⟨.na, 0⟩, ⟨.lock, 0⟩]
+    (run c1 (State.init fun _ => true) toks).map (·.1) = [.ok, .ok, .ok, .ok, .err] ∧
+    ¬ NoNALock c1 (State.init fun _ => true) toks ∧
+    lockedPages (finish c1 (runState c1 (State.init fun _ => true) toks)).m.k = 1 := by
+  decide
+
+/-! ### non-vacuity -/
+
+/-- the hypotheses of `inv_region` are satisfiable: after `new; fill; lock; ro` slot 0 is a live
+`LockedRO` region of 4097 bytes (two data pages `r`, locked; guards `n`) -/
+example :
+    let s := runState { c1 with n := 4097 } (State.init fun _ => true)
+      [⟨.new, 0⟩, ⟨.lock, 0⟩, ⟨.ro, 0⟩]
+    (∃ sl, s.slots[0]? = some sl ∧ sl.gone = false ∧ sl.o.st = .prot .locked .ro ∧ sl.o.v.len = 4097) ∧
+    (s.m.k.perm 1, s.m.k.perm 2, s.m.k.perm 3, s.m.k.perm 4) = (.none, .r, .r, .none) ∧
+    (s.m.k.locked 1, s.m.k.locked 2, s.m.k.locked 3, s.m.k.locked 4) = (false, true, true, false) := by
+  refine ⟨⟨_, rfl, ?_⟩, ?_⟩ <;> decide
+
+/-- the side condition of `drop_restores` holds for ordinary histories (here with a refusal, a
+panic and a locked resize on the way), and the teardown then leaves nothing locked -/
+example :
+    let toks : List Tok := [⟨.new, 0⟩, ⟨.lock, 0⟩, ⟨.clone, 0⟩, ⟨.failfrom 1, 0⟩, ⟨.clone, 0⟩,
+      ⟨.fsl 9, 0⟩, ⟨.failfrom (-1), 0⟩, ⟨.resize 40, 1⟩, ⟨.unlock, 1⟩, ⟨.na, 1⟩, ⟨.ro, 0⟩]
+    NoNALock { c1 with n := 16 } (State.init fun _ => true) toks ∧
+    (run { c1 with n := 16 } (State.init fun _ => true) toks).map (·.1) =
+      [.ok, .ok, .ok, .ok, .panic, .err, .ok, .ok, .ok, .ok, .ok] ∧
+    lockedPages (runState { c1 with n := 16 } (State.init fun _ => true) toks).m.k = 1 ∧
+    lockedPages (finish { c1 with n := 16 } (runState { c1 with n := 16 } (State.init fun _ => true) toks)).m.k = 0 := by
+  decide
+
+/-- counter-model of (a), concretely: `len = 4097`, `P = 4096` — the second page stays as it was -/
+example :
+    (mprotectLenMinus1 4096 Kernel.init 4096 4097 .none).perm 2 = .rw ∧
+    (mprotect 4096 Kernel.init 4096 4097 .none).perm 2 = .none := by
+  decide
 
 end DryocVerif.Properties.C14
